@@ -179,6 +179,16 @@ PROPS = {
         "quick": {"shards": 16, "cases": 1200, "watchdog_s": 1500, "require": {"evaluations": 200000, "ok:dp_rewriting:supported": 2000, "err:parse:unsupported": 2000}},
         "thorough": {"shards": 16, "cases": 40000, "watchdog_s": 14400, "require": {"evaluations": 6000000}},
     },
+    "C16": {
+        "technique": "runtime monitoring: (a) histories - a corpus recompiled in random order with other compilations (incl. DP rewritings that consume the global counters) in between, compared with a fresh-state reference, `namer_count` hook events name the cause; (b) 8 threads compiling the corpus concurrently behind a barrier with yields injected before the counter's lock; (c) render twice / reparse / re-render / execute on SQLite",
+        "level_text": "Exploration: per quick run ~40k recompilations inside histories, ~300k compilations from 8 concurrent threads (1.2k barrier rounds), ~3k fixpoint checks with execution. A recompilation must be structurally equal (==), have the same Display and the same rendered SQL as the reference; the rendered SQL must be stable, parse back to the same output names, to types containing the original ones and to the same results.",
+        "level_note": "Trusted: Relation's PartialEq / Display, SQLite for the result comparison. The fresh-process reference is approximated by namer::reset(). No Miri leg is registered (see DESIGN.md §4).",
+        "rule": ("case mix: 2/4 histories (11 queries x 3 positions each), 1/4 thread rounds (8 threads x 6 rounds x 6 queries), 1/4 fixpoint (3 queries); "
+                 "evaluation = one recompilation / thread compilation / fixpoint check; distinct non-trivial = distinct (query, position) that compiled."),
+        "assumptions": COMMON_ASSUME,
+        "quick": {"shards": 16, "cases": 250, "watchdog_s": 1500, "require": {"evaluations": 100000, "recompilations_in_a_history": 20000, "compilations_in_threads": 100000, "fixpoint_executions": 1500}},
+        "thorough": {"shards": 16, "cases": 8000, "watchdog_s": 14400, "require": {"evaluations": 3000000}},
+    },
     "C17": {
         "technique": "runtime monitoring: every generated relation (from the supported fragment, from DP rewriting, and over catalogues whose names need quoting) is rendered by the eight translators; oracle = the dialect's own sqlparser parser, the library's reader for the seven readable dialects (output names, order, types), and SQLite execution of the SQLite translation on a plain connection against the reference rendering",
         "level_text": "Exploration: ~4k relations x 8 dialects per quick run. Per dialect: the text must parse with that dialect's parser; reading it back with the same translator must give the same column names in order and types containing the original ones; the SQLite text must run on an engine without any compatibility function and return the reference rows; reserved words, spaces, quotes and dots in table/column names must survive. Execution on MySQL, MS SQL, BigQuery, Hive, Databricks, Redshift and PostgreSQL themselves is impossible offline and is not covered.",
